@@ -1,5 +1,8 @@
 """C08 equality and ordering are coherent within each CEL type."""
 import itertools
+import os
+
+os.environ["VERIF_TIME_SHADOW"] = "1"  # timestamps / durations are symbolic values of the term-level datetime model (vf/sym/times.py)
 
 import z3
 
@@ -12,11 +15,11 @@ LEVEL = "model_checking"
 FIDELITY_TESTS = ["tests"]
 BOUNDS = {
     "quick": {"scalars": "all int64 / uint64 / binary64 (NaN excluded) / bool triples", "string,bytes": "lengths 0..2 (all code points / octets), triples at lengths 1..2",
-              "lists": "length 0..2 of int/string, nested once", "maps": "<= 2 concrete keys (string or int), symbolic values", "runners": "both"},
-    "thorough": {"scalars": "same", "string,bytes": "lengths 0..3", "lists": "length 0..3, nested once", "maps": "<= 2 keys, nested list values", "runners": "both"},
+              "lists": "length 0..2 of int/string, nested once", "maps": "<= 2 concrete keys (string or int), symbolic values", "timestamp,duration": "every UTC microsecond instant of years 0001..9999 at every whole-minute display offset -14:00..+14:00 (two symbolic integers per timestamp), every duration within +-315,576,000,000 s at microsecond resolution; plus enumerated text-built constants", "runners": "both"},
+    "thorough": {"scalars": "same", "timestamp,duration": "same", "string,bytes": "lengths 0..3", "lists": "length 0..3, nested once", "maps": "<= 2 keys, nested list values", "runners": "both"},
 }
 OUTSIDE = ["NaN (excluded from every law incl. reflexivity: IEEE and CEL have NaN != NaN)",
-           "timestamp/duration comparison happens inside C datetime: here only enumerated concrete instants written with different offsets (labelled enumeration)",
+           "timestamp/duration comparison happens inside C datetime, which is replaced by the trusted term-level model vf/sym/times.py (cross-checked against the C type on every constructed value and by validation replays); timestamps built from RFC 3339 *text* are concrete representatives (pendulum parses the text in C/third-party code)",
            "cross-type comparisons (no such overload)"]
 ASSUMPTIONS = ["same-type operands only", "the order asserted for numbers is the numeric order, for strings/bytes the code point / octet lexicographic order"]
 TRUSTED = ["z3 5.1", "CPython 3.12 on concrete values", "vf.sym shadows", "vf.refsem / vf.props.values reference relations"]
@@ -85,6 +88,16 @@ def _shape_sets(tier):
     TX = lambda us, off=0: ("const", {"t": "timestamp", "us": us, "off": off, "text": True})
     for a, b, c in [(TX(base, -210), TS(base), TX(base + 1000000, 330)), (TX(base, -30), TX(base, 30), TX(base, -570)), (TX(base - 1000000, -90), TX(base, 0), TS(base, -45))]:
         out.append(("timestamp", [a, b, c]))
+    # symbolic instants (every microsecond of 0001..9999) shown at symbolic whole-minute offsets; symbolic durations;
+    # mixed with constants built from their RFC 3339 text so that the parsed-offset route meets every other instant
+    TSY, DSY = ("timestamp",), ("duration",)
+    out.append(("timestamp", [TSY, TSY, TSY]))
+    out.append(("timestamp", [TSY, TX(base, -210), TSY]))
+    out.append(("timestamp", [TX(base + 999999, 330), TSY, TS(base + 1000000, -45)]))
+    out.append(("duration", [DSY, DSY, DSY]))
+    out.append(("duration", [DSY, DU(0), DSY]))
+    out.append(("list", [L(TSY, DSY), L(TSY, DSY), None]))
+    out.append(("map", [M((SK("k"), TSY)), M((SK("k"), TSY)), None]))
     for a, b, c in [(DU(0), DU(0), DU(1)), (DU(-1000000), DU(1000000), DU(999999)), (DU(1500000), DU(1500001), DU(1000000)), (DU(-1), DU(0), DU(1)), (DU(315576000000000000), DU(-315576000000000000), DU(86400000000))]:
         out.append(("duration", [a, b, c]))
     return out
